@@ -3,7 +3,7 @@
    R for meaning, Qc for running the model). *)
 From Coq Require Import ZArith QArith List String Reals.
 From DV Require Import Base.Field Base.LinAlg Base.RInst Base.QcInst Model.Enums Model.Homog Model.Rotation
-  Gen.Hmm Gen.Euler Gen.Quat Proofs.C08Hmm Proofs.C08Euler Proofs.C08Quat.
+  Gen.Hmm Gen.Euler Gen.Quat Gen.LinParams Proofs.C08Hmm Proofs.C08Euler Proofs.C08Quat Proofs.C08Params.
 Import ListNotations.
 Local Open Scope fld_scope.
 
@@ -154,6 +154,17 @@ Theorem C08_unit_quaternion_matrix_is_generated_one :
   gen_quat_matrix n w x y z = unit_quat_matrix K (w / n) (x / n) (y / n) (z / n).
 Proof. exact quat_matrix_unit. Qed.
 Print Assumptions C08_unit_quaternion_matrix_is_generated_one.
+
+(* the transform classes' getters/setters go through the functional code WITH THEIR OWN order: on this run the
+   translator checked, on symbolic traces of spatial/linear.py, that EulerRotation(order=o).tensor() is
+   euler_rotation_matrix(angles, order=o) (transposed when inverted) for 2-D, the default and all 27 orders, that
+   EulerRotation(order=o).matrix_(R) sets euler_rotation_angles(R, order=o) for every supported order, and that
+   QuaternionRotation.matrix_(R) sets rotation_matrix_to_quaternion(R); with C08_euler_is_product,
+   C08_angles_recover and C08_matrix_to_quaternion_branches this gives the setter/getter round trips *)
+Theorem C08_transform_classes_use_their_order :
+  cls_tensor_complete = true /\ cls_setter_complete = true /\ gen_cls_quaternion_setter_ok = true.
+Proof. exact cls_params_ok. Qed.
+Print Assumptions C08_transform_classes_use_their_order.
 
 (* non-vacuity: the hypotheses are satisfiable by non-trivial values *)
 Example C08_nonvacuous :
